@@ -378,6 +378,12 @@ pub fn judge_run_case(ctx: &mut Ctx, suite: &str, cs: u64, case: &Case, src: &st
     for f in &feats {
         ctx.report.bump(f);
     }
+    // where the evaluation errors of this run struck (reported by the model driver): kind of statement @ nesting depth
+    for l in m.iter().chain(m_tail.iter()) {
+        if let Some(site) = l.strip_prefix("# errsite ") {
+            ctx.report.bump(&format!("eval-error-at:{site}"));
+        }
+    }
     if nontrivial_for(&prop, &feats) {
         ctx.report.nontrivial.insert(key);
     }
